@@ -15,7 +15,9 @@ Next == pc = "init" /\ pc' = "judge" /\ UNCHANGED idx
 Spec == Init /\ [][Next]_<<idx, pc>>
 
 ToSet(s) == {s[i] : i \in DOMAIN s}
-Ref(r) == ExpectedGen(r.L, ToSet(r.sel), r.cfg, r.total, FALSE)
+\* (nobreak: the observer cannot see group separators - rg --json does not print them - so they are left out)
+Ref(r) == LET full == ExpectedGen(r.L, ToSet(r.sel), r.cfg, r.total, FALSE) IN
+          IF "nobreak" \in DOMAIN r /\ r.nobreak THEN SelectSeq(full, LAMBDA e : e.k # "break") ELSE full
 Agrees(r) == LET ref == Ref(r) IN
              /\ Len(ref) = Len(r.obs)
              /\ \A i \in 1..Len(ref) : ref[i].k = r.obs[i].k /\ ref[i].ln = r.obs[i].ln /\ ref[i].off = r.obs[i].off
